@@ -132,6 +132,9 @@ structure St where
   seenPkts : Nat := 0
   /-- ghost: connections that accepted a Retry -/
   retried : List String := []
+  /-- ghost: connections dialed again after a Version Negotiation packet was acted upon (the one after the
+  connection that was closed for re-creation): their version IS negotiated, whatever their state says -/
+  negotiated : List String := []
   /-- ghost: (pkt index, conn, post core text of the implementation) of the previous line -/
   last : Option (Nat × String × String) := none
   /-- ghost: an injected datagram had an effect the protocol permits (before the first genuine packet, or with valid keys) -/
@@ -169,7 +172,12 @@ def stepPkt (s : St) (idx : Nat) (impl : String) : St × StepOut :=
       return ({ s with seenPkts := s.seenPkts + 1, last := none }, { model := model, tags := ["pkt:unrouted"] })
     | some pw =>
       let pm := kvOf pw
-      let pre := stateOf pm
+      let pre0 := stateOf pm
+      -- a connection dialed again after Version Negotiation starts with the flag doDial passes (regenerated fact),
+      -- not with whatever the implementation's state claims
+      let renegotiated := s.negotiated.contains conn
+      let spec := s.scn.get "client" != "plain" && s.scn.get "client" != ""
+      let pre := if renegotiated then { pre0 with versionNegotiated := pre0.versionNegotiated || recreateMarksNegotiated spec } else pre0
       let phc := b1 (pm.get "phc")
       let (post, acts) := gateDatagram pre parts
       let closedModel :=
@@ -200,6 +208,10 @@ def stepPkt (s : St) (idx : Nat) (impl : String) : St × StepOut :=
           fails := fails ++ [("effect_after_genuine", "-", s!"pkt {idx}: {kindTxt p.kind} after the first genuine packet was not dropped")]
         if pre.receivedFirstPacket && p.kind == .initial && p.srcConnID != pre.handshakeDestConnID && !o.inert then
           fails := fails ++ [("effect_after_genuine", "-", s!"pkt {idx}: Initial with a foreign source connection ID was not dropped")]
+        if renegotiated && p.kind == .vn && !o.inert then
+          fails := fails ++ [("no_effect_after_version_negotiated", "-", s!"pkt {idx}: Version Negotiation acted upon by a connection that was itself dialed after version negotiation")]
+        if p.kind == .vn && (o == .vnRecreate) then
+          st := { st with negotiated := toString (natOf conn + 1) :: st.negotiated }
         if !mustBeInert pre p then allInert := false
         if mustBeInert pre p && !o.inert then
           fails := fails ++ [("forged_packet_had_effect", "-", s!"pkt {idx}: {kindTxt p.kind} that must be ignored was not")]
@@ -242,31 +254,38 @@ def stepRunZ (s : St) (impl : String) : St × StepOut := Id.run do
   -- 0-RTT data reaches the server application exactly once if accepted and never if rejected
   if np > 1 then
     fails := fails ++ [("zero_rtt_exactly_once_or_never", "-", s!"delivered {np} times: {impl}")]
+  -- what depends on the SERVER having completed too is judged at the end of the case: an attack the protocol permits
+  -- (a forged Initial sealed with the public Initial keys, …) can make the server side fail while the client completes
+  let mut pending : Option String := none
   if hs == "complete" then
-    if m.get "acc" != "ok" || m.get "c0" != m.get "s0" || m.get "cv" != m.get "sv" || m.get "calpn" != m.get "salpn" then
+    if m.get "acc" == "ok" && (m.get "c0" != m.get "s0" || m.get "cv" != m.get "sv" || m.get "calpn" != m.get "salpn") then
       fails := fails ++ [("success_without_agreement", "-", impl)]
+    if m.get "acc" != "ok" then
+      pending := some impl
     if b1 (m.get "c0") then
       if !(np == 1 && nr == 0 && no == 0) then
-        fails := fails ++ [("zero_rtt_exactly_once_or_never", "-", s!"accepted but server read npayload={np} nresend={nr} nother={no}")]
+        pending := some s!"accepted but server read npayload={np} nresend={nr} nother={no}: {impl}"
       if mode != "accept" then
         fails := fails ++ [("zero_rtt_accepted_against_config", "-", impl)]
     else if b1 (m.get "early") then
       -- rejected: never delivered, the API says Err0RTTRejected, the application's resend arrives once
-      if !(np == 0 && no == 0 && nr == 1) then
-        fails := fails ++ [("zero_rtt_exactly_once_or_never", "-", s!"rejected but server read npayload={np} nresend={nr} nother={no}")]
+      if np != 0 then
+        fails := fails ++ [("zero_rtt_exactly_once_or_never", "-", s!"rejected but the server application read the early data: {impl}")]
+      if !(no == 0 && nr == 1) then
+        pending := some s!"rejected, server read nresend={nr} nother={no}: {impl}"
       if m.get "after" != "E:0rtt_rejected/E:0rtt_rejected" || m.get "next" != "nil" then
         fails := fails ++ [("zero_rtt_reject_not_reported", "-", impl)]
       -- DropPackets(0-RTT): every 0-RTT packet left loss recovery's accounting
       if m.get "left0" != "0" || m.get "leftbytes" != "0" then
         fails := fails ++ [("zero_rtt_reject_keeps_packets", "-", impl)]
     else if !(np == 1 && no == 0) then
-      fails := fails ++ [("zero_rtt_exactly_once_or_never", "-", s!"no early data attempted, server read npayload={np} nother={no}")]
+      pending := some s!"no early data attempted, server read npayload={np} nother={no}: {impl}"
   if m.get "cleft" != "0" || m.get "sleft" != "0" then
     fails := fails ++ [("state_not_released", "-", impl)]
   let tag := if hs == "complete" then (if b1 (m.get "c0") then "zrtt:accepted" else if b1 (m.get "early") then "zrtt:rejected" else "zrtt:not_attempted") else s!"zrtt:{hs}"
   -- for the convergence monitor the outcome of the dial is the outcome of the handshake
   let m' : KV := ("dial", if hs == "complete" then "nil" else hs) :: m.filter (fun p => p.1 != "dial")
-  return ({ s with ran := true, run := m', ntrace := natOf (m.get "ntrace") }, { model := impl, tags := [tag, "zrtt:" ++ mode], fails := fails })
+  return ({ s with ran := true, run := m', ntrace := natOf (m.get "ntrace"), pendingAgree := pending }, { model := impl, tags := [tag, "zrtt:" ++ mode], fails := fails })
 
 def stepRun (s : St) (impl : String) : St × StepOut := Id.run do
   let m := kvOf (words impl)
@@ -276,6 +295,9 @@ def stepRun (s : St) (impl : String) : St × StepOut := Id.run do
   let vn := s.scn.get "vn"
   if b1 (m.get "hang") || m.get "redial" == "hang" then
     fails := fails ++ [("dial_hang", "-", impl)]
+  -- a dial is re-created at most once: the second connection has its version negotiated
+  if natOf (m.get "att") > 2 then
+    fails := fails ++ [("no_effect_after_version_negotiated", "-", s!"{m.get "att"} connection attempts (versions {m.get "vers"}) in one dial")]
   if natOf (m.get "t") > natOf (m.get "bound") then
     fails := fails ++ [("dial_exceeds_handshake_timeout", "-", impl)]
   if dial == "nil" then
